@@ -72,11 +72,11 @@ pub(crate) mod kani_verif {
             }
         };
     }
-    // @h name=c02_lmots_kc_n16_w8 props=C02,C06,C12,C01 tier=thorough kind=proved cfg=w8 timeout=2400 funcs=lm_ots::verify::generate_public_key_candidate;HashChainArray::new;HashChainArray::push;HashChainArray::as_slice;InMemoryLmotsSignature::get_signature_data contract="RFC 8554 Alg. 4b: Q = H(I||u32(q)||D_MESG||C||msg), z_i = do_hash_chain(i, y_i, coef(Q||Cksm(Q), i, w), 2^w-1), Kc = H(I||u32(q)||D_PBLC||z_0..z_{p-1}); every signature/I/q/3-byte message; every hash function; n=16, w=8"
+    // @h name=c02_lmots_kc_n16_w8 props=C02,C06,C12,C01 tier=extended kind=proved cfg=w8 timeout=2400 funcs=lm_ots::verify::generate_public_key_candidate;HashChainArray::new;HashChainArray::push;HashChainArray::as_slice;InMemoryLmotsSignature::get_signature_data contract="RFC 8554 Alg. 4b: Q = H(I||u32(q)||D_MESG||C||msg), z_i = do_hash_chain(i, y_i, coef(Q||Cksm(Q), i, w), 2^w-1), Kc = H(I||u32(q)||D_PBLC||z_0..z_{p-1}); every signature/I/q/3-byte message; every hash function; n=16, w=8"
     h!(c02_lmots_kc_n16_w8, check_kc::<16, 320, 308, 3>(8), 48);
-    // @h name=c02_lmots_kc_n32_w8 props=C02,C06,C12,C01 tier=thorough kind=proved cfg=w8 timeout=3600 funcs=lm_ots::verify::generate_public_key_candidate contract="same, n=32, w=8 (p=34)"
+    // @h name=c02_lmots_kc_n32_w8 props=C02,C06,C12,C01 tier=extended kind=proved cfg=w8 timeout=3600 funcs=lm_ots::verify::generate_public_key_candidate contract="same, n=32, w=8 (p=34)"
     h!(c02_lmots_kc_n32_w8, check_kc::<32, 1120, 1124, 3>(8), 150);
-    // @h name=c02_lmots_kc_n16_w4 props=C02,C06,C12,C01 tier=thorough kind=proved cfg=default timeout=3600 funcs=lm_ots::verify::generate_public_key_candidate contract="same, n=16, w=4 (p=35)"
+    // @h name=c02_lmots_kc_n16_w4 props=C02,C06,C12,C01 tier=extended kind=proved cfg=default timeout=3600 funcs=lm_ots::verify::generate_public_key_candidate contract="same, n=16, w=4 (p=35)"
     h!(c02_lmots_kc_n16_w4, check_kc::<16, 600, 580, 0>(4), 80);
 
     /// contract of the HashChainArray container that the Verus unit v4_lmots_verify assumes: a sequence with the capacity
